@@ -138,7 +138,7 @@ func init() {
 
 	core.Register(&core.Check{
 		ID:   "C16",
-		Rule: "complete enumeration: every name of (FHIRPath N1 list U repo base+experimental tables U near-miss spellings) x argument count 0..4 x {default, WithExperimentalFuncs} x {fhirpath.Compile, patch.Compile}; accepted calls with specification-typed arguments are evaluated; binding of every table key is read with runtime.FuncForPC; a case is non-trivial when its (name, arity, config, compiler, outcome) is distinct",
+		Rule: "complete enumeration: every name of (FHIRPath N1 list U repo base+experimental tables U near-miss spellings) x argument count 0..4 x {default, WithExperimentalFuncs} x {fhirpath.Compile, patch.Compile}; accepted calls are evaluated with specification-typed arguments and again with the empty collection as receiver and in each argument position (no arity complaint); binding of every table key is read with runtime.FuncForPC; a case is non-trivial when its (name, arity, config, compiler, outcome) is distinct",
 		Assumptions: []string{"the N1 signature table in checks/c16.go was transcribed from the specification", "documented extensions: extension() (FHIR R4), join() (experimental)"},
 		Subs: func(tier string) []core.Sub {
 			ns := names()
@@ -206,6 +206,32 @@ func init() {
 							} else if ev.Err != nil && (errors.Is(ev.Err, impl.ErrWrongArity) || strings.Contains(strings.ToLower(ev.Err.Error()), "arity") || strings.Contains(ev.Err.Error(), "arguments, expected")) {
 								if inSpec && n >= sig.min && n <= sig.max || !inSpec {
 									r.Fail(fmt.Sprintf("arity-complaint-at-eval|%s|arity=%d", name, n), core.W{"src": src, "config": c.name, "err": ev.Err.Error()})
+								}
+							}
+							// the same accepted call with the empty collection as receiver or in one argument
+							// position has the same argument count: no arity complaint either
+							if implemented {
+								args := fillArgs(sig, n)
+								for pos := -1; pos < n; pos++ {
+									recv2, args2 := sig.recv, append([]string{}, args...)
+									if pos < 0 {
+										recv2 = "{}"
+									} else {
+										args2[pos] = "{}"
+									}
+									src2 := callSrc(recv2, name, args2)
+									ev2 := lib.Run(src2, []fhir.Resource{lib.Patient()}, nil, c.copts()...)
+									r.Eval()
+									r.State(fmt.Sprintf("empty-at|%d|arity=%d", pos, n))
+									r.Nontrivial(src2, c.name, ev2.Class())
+									if ev2.CompileErr != nil || ev2.Panic != nil {
+										continue // acceptance depends on the count only (checked above); panics are C01/C07's subject
+									}
+									if ev2.Err != nil && (errors.Is(ev2.Err, impl.ErrWrongArity) || strings.Contains(strings.ToLower(ev2.Err.Error()), "arity") || strings.Contains(ev2.Err.Error(), "arguments, expected")) {
+										if inSpec && n >= sig.min && n <= sig.max || !inSpec {
+											r.Fail(fmt.Sprintf("arity-complaint-at-eval|%s|arity=%d|empty-at=%d", name, n, pos), core.W{"src": src2, "config": c.name, "err": ev2.Err.Error()})
+										}
+									}
 								}
 							}
 							// unimplemented placeholder: explicit not-implemented error, never a result
